@@ -111,6 +111,22 @@ V2Prefixes ==
              prop |-> "C05", kind |-> "decode", layer |-> "V2Session", class |-> "prefix-pt" \o ToString(pt) \o (IF en THEN "e" ELSE "-") \o (IF au THEN "a" ELSE "-"),
              bytes |-> Take(full, n), exp |-> [any |-> TRUE]] : n \in 0..Len(full) }
           : pt \in PTypes, en \in BOOLEAN, au \in BOOLEAN }
+\* one wrapper value and one keyed integrity hash used for a sequence of packets, as a session does: authentic packets
+\* round-trip and tampered ones are rejected, in any order - in particular after a packet that was rejected
+V2SeqVectors ==
+  UNION { LET key == RBytes(k + 95, 20)
+              wa == WBase(k + 1, 0, TRUE, 9 + k)   wb == WBase(k + 2, 0, TRUE, 3)   wc == WBase(k + 3, 2, TRUE, 21)
+              T(w) == V2AuthT(w, a[1], key, a[2])
+              dec(w) == [op |-> "decode", bytesT |-> T(w), exp |-> [err |-> FALSE, value |-> V2Value(w), payload |-> w.payload]]
+              bad(w, bit) == [op |-> "decode", bytesT |-> Flip(T(w), bit), exp |-> [err |-> TRUE]]
+              ser(w) == [op |-> "serialize", fields |-> V2Fields(w), payload |-> w.payload, exp |-> [err |-> FALSE, bytesT |-> T(w)]]
+          IN { [id |-> "V2Session/seq/" \o a[1] \o "/" \o ToString(k) \o "/" \o ToString(q), prop |-> "C08", kind |-> "v2seq", layer |-> "V2SessionAuth",
+                class |-> "sequence-" \o ToString(q), alg |-> a[1], key |-> key,
+                steps |-> CASE q = 1 -> << dec(wa), bad(wb, 8 * 14 + 1), ser(wc), dec(wc), dec(wb) >>
+                            [] q = 2 -> << bad(wa, 8 * (Len(V2Signed(wa)) + 2)), dec(wa), ser(wa), bad(wc, 8 * 20), ser(wb), dec(wb) >>
+                            [] q = 3 -> << ser(wa), dec(wa), ser(wb), dec(wb), ser(wc), dec(wc) >>
+                            [] OTHER -> << bad(wc, 8 * 5 + 3), bad(wa, 8 * 13), dec(wc), ser(wa), dec(wa) >>] : q \in 1..4 }
+          : a \in Integs, k \in 1..3 }
 \* a length field that exceeds the data by d: rejected (C07)
 V2LenCorrupt ==
   UNION { LET w == WBase(11 + pt, pt, FALSE, 9) IN
@@ -203,7 +219,7 @@ AesSeqVectors ==
      key |-> RBytes(k + 210, 16), packets |-> [i \in 1..Len(q) |-> AesPacket(RBytes(k + 210, 16), k * 10 + i, q[i])]] : q \in LenSeqs, k \in 1..2 }
 Vectors == CASE Family = "aes" -> AesVectors \cup AesSeqVectors
              [] Family = "message" -> MsgVectors \cup MsgCorrupt \cup MsgShortSet \cup MsgReuse
-             [] Family = "wrapper" -> V2Vectors \cup V2LenCorrupt \cup V1Vectors \cup V1Reuse \cup V2Prefixes
+             [] Family = "wrapper" -> V2Vectors \cup V2LenCorrupt \cup V1Vectors \cup V1Reuse \cup V2Prefixes \cup V2SeqVectors
              [] Family = "setup" -> Rakp1Vectors \cup SetupVectors
 ASSUME \A v \in Vectors : PrintT(<<"SCRIPT", ToJson(v)>>)
 ASSUME PrintT(<<"COUNT", ToJson([n |-> Cardinality(Vectors)])>>)
